@@ -380,7 +380,7 @@ def save_replay(ctx, clause, message, sources, steps_sh, output, config):
     h.update(steps_sh.encode())
     if not sources and not steps_sh:
         h.update(message.encode())
-    d = os.path.join(ctx['verif'], 'replays', 'C18', h.hexdigest()[:12])
+    d = os.path.join(ctx.get('replays') or os.path.join(ctx['verif'], 'replays'), 'C18', h.hexdigest()[:12])
     shutil.rmtree(d, ignore_errors=True)
     os.makedirs(d)
     for k, v in sources.items():
